@@ -19,7 +19,16 @@ func Trigger(name string, p *Plan, r *RunResult) bool {
 			}
 		}
 	case "v1-batchget":
-		return cmd.Op == "BatchGet" && p.World.SDKs[cmd.C] == "v1"
+		return cmd.Op == "BatchGet" && (p.World.SDKs[cmd.C] == "v1" || (p.Twin == "sdk" && cmd.C%2 == 0))
+	case "update-names-key-attribute":
+		if cmd.Op != "Update" {
+			return false
+		}
+		for _, t := range cmd.Upd.Targets() {
+			if _, ok := cmd.Key[t]; ok {
+				return true
+			}
+		}
 	}
 	return false
 }
